@@ -91,7 +91,7 @@ def run_case(case, ctx):
     try:
         rng = np.random.default_rng([case["dseed"], 77])
         n, off = case["n"], case["off"]
-        y = zoo.make_series(rng, n, positive=True, off=off, index=case["idx"])
+        y = zoo.make_series(rng, n, positive=True, off=off, index=case["idx"], integer=case["dseed"] % 5 == 0)
         X = None
         if case["withX"]:
             X = pd.DataFrame({"a": rng.normal(0, 1, n), "b": np.arange(n) * 0.1}, index=y.index)
